@@ -1,6 +1,6 @@
 CONSTANTS
   MaxSteps = 200000
-  CrashOnly = FALSE
+  CrashOnly = TRUE
 SPECIFICATION Spec
 INVARIANT Inv
 CONSTRAINT Track
